@@ -736,3 +736,30 @@ add("C07", "benign: indent splits on a separator held in a variable (not decided
     "        lines = sql.split(\"\\n\")", "        newline = \"\\n\"\n        lines = sql.split(newline)", "silent", 0)
 add("C13", "benign: fast path line count through a local helper variable", "sqlglot/tokenizer_core.py",
     "                if newlines:\n                    self._line += newlines\n", "                if newlines:\n                    extra_lines = newlines\n                    self._line += extra_lines\n", "silent", 0)
+
+add("C20", "bigram cache created once per distiller instead of once per diff()", DIFF,
+    "        self._bigram_histo_cache: dict[int, defaultdict[str, int]] = {}\n\n        matching_set",
+    "\n        matching_set", "C20.e",
+    extra=[(DIFF, "        self._sql_generator = Dialect.get_or_raise(dialect).generator(comments=False)\n",
+            "        self._sql_generator = Dialect.get_or_raise(dialect).generator(comments=False)\n        self._bigram_histo_cache: dict[int, defaultdict[str, int]] = {}\n")])
+add("C20", "inputs listed depth-first but their copies breadth-first", DIFF,
+    "    source_nodes = tuple(source.walk())\n    target_nodes = tuple(target.walk())\n",
+    "    source_nodes = tuple(source.dfs())\n    target_nodes = tuple(target.dfs())\n", "C20.f")
+add("C20", "benign: both sides listed depth-first", DIFF,
+    "    source_nodes = tuple(source.walk())\n    target_nodes = tuple(target.walk())\n",
+    "    source_nodes = tuple(source.dfs())\n    target_nodes = tuple(target.dfs())\n", "silent", 0,
+    extra=[(DIFF, "compute_node_mappings(source_nodes, tuple(source_copy.walk()))", "compute_node_mappings(source_nodes, tuple(source_copy.dfs()))"),
+           (DIFF, "compute_node_mappings(target_nodes, tuple(target_copy.walk()))", "compute_node_mappings(target_nodes, tuple(target_copy.dfs()))")])
+add("C13", "error context window loses its lower clamp", "sqlglot/errors.py",
+    "        start_context = sql[max(0, first_highlight_start - context_length) : first_highlight_start]",
+    "        start_context = sql[first_highlight_start - context_length : first_highlight_start]", "C13.f")
+add("C10", "upper-case folding ignores ASCII_ONLY_NORMALIZATION", DIALECT,
+    "                normalized = (\n                    expression.this.translate(ASCII_UPPER)\n                    if self.ASCII_ONLY_NORMALIZATION\n                    else expression.this.upper()\n                )\n",
+    "                normalized = expression.this.upper()\n", "C10.d")
+add("C10", "revert: star modifiers keyed by id() of the source name", "sqlglot/optimizer/qualify_columns.py",
+    "            columns_to_exclude = except_columns.get(table) or set()", "            columns_to_exclude = except_columns.get(id(table)) or set()", "C10.e")
+add("C12", "type annotation dumped in a compact form that drops its scalar arguments", "sqlglot/serde.py",
+    "                payload[TYPE] = dump(node.type)", "                payload[TYPE] = dump(node.type.this if node.type.is_leaf() else node.type)", "C12.g")
+add("C12", "benign: type annotation dumped through a local alias", "sqlglot/serde.py",
+    "            if node.type and node.type is not node:\n                payload[TYPE] = dump(node.type)",
+    "            node_type = node.type\n            if node_type and node_type is not node:\n                payload[TYPE] = dump(node_type)", "silent", 0)
